@@ -26,7 +26,7 @@ type world struct {
 	height []int64
 	award  *big.Int
 	// walkable: the block's user transactions are of the kind State.Walk applies without
-	// signature verification (Autogen transfers); the others are version-0 transactions
+	// signature verification (award-only blocks); the others carry version-0 transactions
 	// that only State.Play (PlayAndRepost with isRootTx) applies. Real signatures are
 	// outside these harnesses.
 	walkable []bool
@@ -54,8 +54,8 @@ func (w *world) add(parent int, nonce int32, txs []*pb.Transaction) int {
 // frozen heights and key values are solver variables:
 //
 //	g <- b1 <- b2      b1: A pays x to B (change to A), writes k1=v1, creates k2
-//	g <- c1            b2: B pays part of x to C with a fee output, deletes k2, overwrites k1
-//	                   c1: A pays y to C frozen until height fz
+//	g <- c1 <- c2      b2: B pays part of x to C with a fee output, deletes k2, overwrites k1
+//	g <- d1 <- d2      c1: A pays y to C frozen until height fz; c2: spends of c1's outputs; d1, d2: award only
 //
 // data: 0 = all amounts/values fixed, 1 = main amounts symbolic, 2 = everything symbolic
 func build(window string, data int) *world {
@@ -102,18 +102,20 @@ func build(window string, data int) *world {
 	y := big.NewInt(main("y", 1, 9, 3)) // t6 cites the output (zero-value outputs stay covered by z)
 	fz := pick("frozen", 0, 2, 1)       // thawed by height 2, where t6 spends it
 	t3 := vkit.Tx("t3", []*protos.TxInput{vkit.In(root, 0, "A", hundred)}, []*protos.TxOutput{vkit.Out("C", y, fz), vkit.Out("A", new(big.Int).Sub(hundred, y), 0)})
-	t3.Autogen = true
 	c1 := w.add(0, 3, []*pb.Transaction{vkit.Coinbase("cb3", "M", w.award.Bytes()), t3})
 	restA3 := new(big.Int).Sub(hundred, y)
 	u := big.NewInt(pick("u", 0, 9, 1))
 	vrt.Assume(u.Cmp(restA3) <= 0 && restA3.Sign() > 0)
 	t4 := vkit.Tx("t4", []*protos.TxInput{vkit.In([]byte("t3"), 1, "A", restA3)}, []*protos.TxOutput{vkit.Out("B", u, 0), vkit.Out("A", new(big.Int).Sub(restA3, u), 0)})
-	t4.Autogen = true
 	// t6 spends the output that was frozen until fz; like a wallet it copies the frozen height into its input
 	t6 := vkit.Tx("t6", []*protos.TxInput{vkit.In([]byte("t3"), 0, "C", y)}, []*protos.TxOutput{vkit.Out("B", y, 0)})
 	t6.TxInputs[0].FrozenHeight = fz + frozenClaimSkew
-	t6.Autogen = true
 	w.add(c1, 4, []*pb.Transaction{vkit.Coinbase("cb4", "M", w.award.Bytes()), t4, t6})
+	// an award-only fork g <- d1 <- d2: the only kind of block Walk's redo leg can apply without
+	// signatures (transactions flagged Autogen without ext inputs / outputs were accepted unverified
+	// until fix "autogen / coinbase flags" and served as that kind before)
+	d1 := w.add(0, 7, []*pb.Transaction{vkit.Coinbase("cb7", "M", w.award.Bytes())})
+	w.add(d1, 8, []*pb.Transaction{vkit.Coinbase("cb8", "M", w.award.Bytes())})
 	if deepWorld {
 		// two more main-branch blocks (award only, hence applicable by Walk's redo leg): depth 4
 		b3 := w.add(2, 5, []*pb.Transaction{vkit.Coinbase("cb5", "M", w.award.Bytes())})
@@ -265,7 +267,7 @@ func walksFrom(K int, window string, data int, anyStart bool) {
 		if w.height[at] > maxApplied {
 			maxApplied = w.height[at]
 		}
-		vrt.Cover("on-fork", at == 3 || at == 4)
+		vrt.Cover("on-fork", at >= 3 && at <= 6)
 		vrt.Cover("deep", at == 2)
 		live := vkit.Observe(s)
 		replica := vkit.Observe(w.fresh("replica"+string([]byte{byte('0' + step)}), at))
@@ -940,10 +942,8 @@ func c06scenario(sc *scene, k int) {
 				sc.s.PlayForMiner(b2.Blockid)
 			}
 		}
-	case 3: // a longer fork arrives (two blocks of Autogen transfers), the state walks across
-		t3 := vkit.Tx("t3", []*protos.TxInput{vkit.In(sc.e.RootTx.Txid, 0, "A", big.NewInt(9))}, []*protos.TxOutput{vkit.Out("C", big.NewInt(9), 0)})
-		t3.Autogen = true
-		c1 := vkit.Block(sc.e.Root.Blockid, 3, []*pb.Transaction{vkit.Coinbase("cb3", "M", []byte{7}), t3})
+	case 3: // a longer fork arrives (two award-only blocks), the state walks across: undo of b1, redo of the fork
+		c1 := vkit.Block(sc.e.Root.Blockid, 3, []*pb.Transaction{vkit.Coinbase("cb3", "M", []byte{7})})
 		c2 := vkit.Block(c1.Blockid, 4, []*pb.Transaction{vkit.Coinbase("cb4", "M", []byte{7})})
 		sc.blockIDs = append(sc.blockIDs, c1.Blockid, c2.Blockid)
 		if sc.e.L.ConfirmBlock(c1, false).Succ && sc.e.L.ConfirmBlock(c2, false).Succ {
@@ -1070,7 +1070,7 @@ func verifC06() {
 			}
 		}
 	} else {
-		// the state sits on the abandoned branch: walk across (redo leg = Autogen blocks in scenario 3)
+		// the state sits on the abandoned branch: walk across (redo leg = award-only blocks in scenario 3)
 		err := s.Walk(meta.TipBlockid, false)
 		vrt.Quiesce()
 		vrt.Assert(err == nil, "sync-to-ledger-tip-succeeds")
